@@ -395,7 +395,7 @@ pub fn apply(op: usize, s: &mut TypeSpec, d: &mut Dna) -> Option<Fault> {
                 for f in v.fields.iter_mut() {
                     f.attrs.retain(|a| !(a.tr == Tr::Into && a.into_ty.as_deref() == Some(t.as_str())));
                 }
-                let same = v.fields.iter().filter(|f| f.ty.inst == t).count();
+                let same = v.fields.iter().filter(|f| crate::known::erase_lifetimes(&f.ty.src) == crate::known::erase_lifetimes(&t)).count();
                 // either no candidate at all or two same-typed ones; exactly one would be found automatically
                 if same == 1 {
                     return None;
